@@ -984,6 +984,26 @@ func init() {
 				}
 				c.Add(Case{Line: line, Impl: impl, Key: key})
 			}
+			// deep nesting around the depth (1000) at which the encoder starts to look for cycles: values that
+			// share storage without being cyclic (a slice of an array inside that array's own element, the same
+			// map twice) are not cycles.  Oracle only (the model line would be megabytes).
+			for _, depth := range []int{998, 999, 1000, 1001, 1002, 1100} {
+				inner := ugo.Array{ugo.Int(5), nil}
+				inner[1] = inner[:1]
+				shared := ugo.Map{"k": ugo.Int(1)}
+				for si, leaf := range []ugo.Object{inner, ugo.Array{shared, shared}, ugo.Map{"a": shared, "b": ugo.Array{shared}}, ugo.Array{ugo.Int(1)}} {
+					var v ugo.Object = leaf
+					for i := 0; i < depth; i++ {
+						if si%2 == 0 {
+							v = ugo.Array{v}
+						} else {
+							v = ugo.Map{"n": v}
+						}
+					}
+					marshalOracle(c, v, fmt.Sprintf("deep-shared depth=%d shape=%d", depth, si))
+					c.dist["oracle:marshal-deep-shared"]++
+				}
+			}
 			// boundary pool
 			for _, v := range gen.ValuePool() {
 				addMarshal(v)
